@@ -330,20 +330,39 @@ CHECKS = {
              "the part-list parser and regex generator are exercised, not modelled"),
 
     "C15": dict(
-        technique="Lean 4: URL Pattern Standard canonicalisation callbacks defined over the Lean Spec of the URL parser "
-                  "(Spec/Pattern.lean) as the oracle; byte-class theorems for char_class_table regenerated from the source; "
-                  "differential run on generated literal values + WPT URLPattern corpus",
+        technique="Lean 4 proof: statement-by-statement models of ada's eleven canonicalize_* callbacks (Model/PatternCanon.lean) "
+                  "proved equal, for every value, to the URL Pattern Standard's callbacks defined over the Lean Spec of the URL "
+                  "parser and setters (Spec/Pattern.lean); the models are run against the real functions call by call; byte-class "
+                  "theorems for char_class_table and its flag constants regenerated from the source; differential run on generated "
+                  "literal values + WPT URLPattern corpus",
         text="Theorems (Props/C15.lean): CHAR_SCHEME = the Standard's scheme code points; every CHAR_SIMPLE_HOSTNAME byte is "
              "lower-case/digit/-/. (unchanged by lower-casing and decoding, not forbidden); every CHAR_SIMPLE_PATHNAME byte is "
              "outside the path encode set and none of . % \\ ? # tab LF CR, hence the path encoder and tab/newline removal are "
-             "the identity on simple path names; the port canonicaliser's lexicographic rule is numeric comparison. On the "
+             "the identity on simple path names; the port canonicaliser's lexicographic rule is numeric comparison. "
+             "The callbacks themselves (Model/PatternCanon.lean, 140 lines; Lemmas/PatternCanon.lean, 700 lines): "
+             "canonicalize_username_is_standard, canonicalize_search_hash_is_standard (percent_encode_index + percent_encode from "
+             "that index = the Standard's encoder over the userinfo / query / fragment set, after tab/newline removal), "
+             "canonicalize_ipv6_opaque_is_standard (the opaque path state run by hand), canonicalize_port_is_standard (digit prefix, "
+             "leading zeros, five significant digits compared lexicographically with 65535, resp. from_chars into 16 bits and "
+             "get_special_port of the protocol = the port state with a state override, shortest decimal spelling, default port "
+             "elided - natToDecF_parseRadix), canonicalize_pathname_shortcut and canonicalize_pathname_is_standard_partial (simple "
+             "values are fixed points of the path state; the slow route dummy URL + set_pathname + get_pathname through "
+             "C03.aggregator_set_pathname_end_to_end, under a limit that admits the dummy URL and the result), "
+             "canonicalize_hostname_shortcut_partial (simple values that is_ipv4 does not claim are what the hostname state on a "
+             "special dummy URL returns; ACE labels under an explicit hypothesis on to_ascii), canonicalize_protocol_is_standard_partial "
+             "with protocolUrl_scheme (for every value shaped like a scheme, parse(value + '://dummy.test') has that scheme in lower case, "
+             "whatever IDNA answers) and protocol_slow_route (C01's aggregator parser theorem). L1: harness `patcanon` calls the "
+             "eleven real callbacks directly, also under small configured maximum lengths, and compares with driver `pat.canon` "
+             "(real IDNA answers as hints). On the "
              "implementation: for literal values of every component (alone, combined, with baseURL, and as constructor strings "
              "assembled from literal parts) construction fails iff "
              "the Standard's canonicalisation (run by the Lean driver) fails, and each pattern string is the escaped canonical "
              "form, including default-port elision, the special-scheme pathname choice and base-URL inheritance; every "
              "encodable WPT URLPattern vector is replayed.",
         design_ref="DESIGN.md §5 C15", category="proof",
-        note="partial: the constructor-string parser / tokenizer / 'process a URLPatternInit' are transcribed in the Python "
+        note="partial: the slow route of canonicalize_hostname (dummy URL + set_hostname) is compared by the L1 run only (the host "
+             "setter theorem of C03 does not state the returned flag); the pathname theorem assumes a limit >= 15 that admits the "
+             "result; the constructor-string parser / tokenizer / 'process a URLPatternInit' are transcribed in the Python "
              "expectation for literal values and exercised through WPT, not modelled in Lean; the hostname callback's dummy "
              "URL is taken to be special (WPT); vectors needing ECMAScript v-mode regex semantics are engine-dependent"),
 
